@@ -629,3 +629,63 @@ def c01_r5(ctx):
         bad = exits.get("R")
         ctx.ob(f, bad is None, "no path leaves a part buffered at an unverified position",
                path=cfgmod.path_text(bad) if bad else None)
+
+
+# --------------------------------------------------------------------- R6
+@rule("C01", "R6", "K2", "InverseMatcher never rests on a document its `missing` predicate rejects",
+      min_instances=1, also=("C07",),
+      clause="On every normal path through InverseMatcher._find_next, the last thing that happened to self._id is a "
+             "test that accepted it -- missing(self._id) evaluated false, or self._id < self.limit evaluated false "
+             "(exhausted) -- not an increment; Not passes reader.is_deleted as `missing` (C01-R3), so a violation "
+             "returns deleted documents.")
+def c01_r6(ctx):
+    prog = ctx.prog
+    f = prog.method("matching.wrappers.InverseMatcher", "_find_next", inherited=False)
+    cls = prog.cls("matching.wrappers.InverseMatcher")
+    ctx.saw(f)
+    al = norm.aliases(f.node)
+
+    def stmt_event(func, node):
+        a = node.ast
+        if node.kind == "stmt" and isinstance(a, (ast.Assign, ast.AugAssign)):
+            tg = a.targets if isinstance(a, ast.Assign) else [a.target]
+            if any(norm.canon(t) == "self._id" for t in tg):
+                return "moved"
+        return None
+
+    def edge_event(func, node, label):
+        if node.kind != "test":
+            return None
+        t = norm.canon(node.ast, al)
+        pol = label[0]
+        if t == "self.missing(self._id)":
+            return "accepted" if pol == "F" else "rejected"
+        if t == "(self._id < self.limit)" and pol == "F":
+            return "accepted"
+        if t == "(self.limit <= self._id)" and pol == "T":
+            return "accepted"
+        return None
+
+    def delta(state, ev):
+        if ev == "moved" or ev == "rejected":
+            return "D"
+        if ev == "accepted":
+            return "C"
+        return state
+    ts = TypeState(prog, calls_of(prog), delta, lambda *a: None, stmt_event=stmt_event, edge_event=edge_event, max_depth=0)
+    ts.all_states = ("C", "D")
+    exits = ts.run(f, cls, "D")
+    bad = exits.get("D")
+    ctx.ob(f, "C" in exits and bad is None, "every path leaves self._id on an accepted document (or past the limit)",
+           detail="a path ends right after self._id was advanced, without asking missing(): Not(q) can return a deleted document" if bad else "",
+           path=cfgmod.path_text(bad) if bad else None)
+    # every mover of _id re-establishes the invariant through _find_next
+    for mname in ("__init__", "next", "skip_to", "reset"):
+        g = cls.methods.get(mname)
+        if g is None:
+            continue
+        last_set = None
+        calls_find = [c.lineno for c in norm.calls_in(g.node) if norm.canon(c) == "self._find_next()"]
+        sets = [st.lineno for st in ast.walk(g.node) if isinstance(st, (ast.Assign, ast.AugAssign)) and
+                any(norm.canon(t) == "self._id" for t in (st.targets if isinstance(st, ast.Assign) else [st.target]))]
+        ctx.ob(g, bool(calls_find) and (not sets or max(sets) < max(calls_find)), "%s() calls _find_next() after its last change of self._id" % mname)
